@@ -6,12 +6,12 @@
    alias equals its own full name.)  Plus the resolution lemmas for reference endpoints and index subjects.
    And [LinkedMore]: both endpoint lists of every contained reference are Column objects held by one listed
    Table (the one the address was resolved to), table groups hold listed Table objects, a column whose type is an
-   Enum object holds a listed Enum.
+   Enum object holds a listed Enum, the column subjects of every index are Column objects of the owning table.
    Consequences proved for every state satisfying both invariants: Reference.table1 / table2 succeed and are the listed
    tables holding the whole side; Table.get_refs of a listed table returns exactly the contained references whose left
    side is that table; a reference that is not many-to-many has exactly one listed table as its SQL key holder.
    An inline reference starts at the column that declared it (the registered blueprint carries the declaring table and column).
-   Not proved (tie + identity oracle): index subjects stay own columns, note back-pointers. *)
+   Not proved (tie + identity oracle): note back-pointers. *)
 From PyDBML Require Import PyStr Py Heap Classes Database Tools PP Actions Build GenClasses GenGrammar Entry
   RenderSQL RuleFacts ContainerInv ContainerFull TableInv BuildInv BuildLinks.
 Import ListNotations.
